@@ -1,6 +1,7 @@
 // Correspondence harness, modes `cast` and `dispatch` (property C06).
 //   cast <value-kind> <param-id>            -> ok <received> | bad_boxed_cast | other:<class>
 //   disp <fid,fid,...> <value-kind>[,<value-kind>]   -> entered <fid> <received...> | error:<class>
+//   arity <fun|var|pair|ctor|method|attr|script> <k> <n>   one callable with k int parameters called with n int arguments -> entered <k> <received…> | error [AFTER-ENTERING …]
 //   catalogue                               -> one line per function: "<fid> <param descriptors>" ; per value kind: "<kind> <type> <const> <store>"
 // Value kinds and the function catalogue are fixed tables below; every function logs what it received.
 #include <chaiscript/chaiscript.hpp>
@@ -159,6 +160,57 @@ static void reg_bind_api(ChaiScript &chai) {
   chai.add(fun([](int a, const std::string &b, int c, const std::string &d, int e) { note_rec(iv(a) + "," + sv(b) + "," + iv(c) + "," + sv(d) + "," + iv(e)); }), "rm5");
 }
 
+// ---- arity probes: `arity <form> <k> <n>`: one callable with k int parameters, called with n int arguments
+static void ar0() { g_log = "0"; }
+static void ar1(int a) { g_log = "1 " + std::to_string(a); }
+static void ar2(int a, int b) { g_log = "2 " + std::to_string(a) + " " + std::to_string(b); }
+static void ar3(int a, int b, int c) { g_log = "3 " + std::to_string(a) + " " + std::to_string(b) + " " + std::to_string(c); }
+struct ArW {
+  ArW() { g_log = "0"; }
+  explicit ArW(int a) { g_log = "1 " + std::to_string(a); }
+  ArW(int a, int b) { g_log = "2 " + std::to_string(a) + " " + std::to_string(b); }
+  ArW(int a, int b, int c) { g_log = "3 " + std::to_string(a) + " " + std::to_string(b) + " " + std::to_string(c); }
+  void m0() { g_log = "0"; }
+  void m1(int a) { g_log = "1 " + std::to_string(a); }
+  void m2(int a, int b) { g_log = "2 " + std::to_string(a) + " " + std::to_string(b); }
+  void m3(int a, int b, int c) { g_log = "3 " + std::to_string(a) + " " + std::to_string(b) + " " + std::to_string(c); }
+  int attr = 7;
+};
+static std::string arity_probe(const std::string &form, int k, int n) {
+  ChaiScript chai;
+  std::string args;
+  for (int j = 0; j < n; ++j) args += (j ? ", " : "") + std::to_string(10 + j);
+  std::string src;
+  auto addfun = [&](const std::string &name, int kk) {
+    switch (kk) { case 0: chai.add(fun(&ar0), name); break; case 1: chai.add(fun(&ar1), name); break; case 2: chai.add(fun(&ar2), name); break; default: chai.add(fun(&ar3), name); }
+  };
+  if (form == "fun") { addfun("g", k); src = "g(" + args + ")"; }
+  else if (form == "var") { addfun("g", k); src = "var h = g; h(" + args + ")"; }
+  else if (form == "pair") { addfun("g", k); addfun("g", (k + 2) % 4); src = "g(" + args + ")"; }        // overloaded name: Dispatch_Function
+  else if (form == "ctor") {
+    chai.add(user_type<ArW>(), "ArW");
+    switch (k) { case 0: chai.add(constructor<ArW()>(), "ArW"); break; case 1: chai.add(constructor<ArW(int)>(), "ArW"); break;
+                 case 2: chai.add(constructor<ArW(int, int)>(), "ArW"); break; default: chai.add(constructor<ArW(int, int, int)>(), "ArW"); }
+    src = "ArW(" + args + ")";
+  } else if (form == "method" || form == "attr") {
+    chai.add(user_type<ArW>(), "ArW");
+    chai.add(constructor<ArW()>(), "ArW");
+    if (form == "attr") { chai.add(fun(&ArW::attr), "m"); }
+    else switch (k) { case 0: chai.add(fun(&ArW::m0), "m"); break; case 1: chai.add(fun(&ArW::m1), "m"); break; case 2: chai.add(fun(&ArW::m2), "m"); break; default: chai.add(fun(&ArW::m3), "m"); }
+    chai.eval("var w = ArW()");
+    src = "w.m(" + args + ")";
+  } else if (form == "script") {
+    std::string ps, body = "note(" + std::to_string(k);
+    for (int j = 0; j < k; ++j) { ps += (j ? ", p" : "p") + std::to_string(j); }
+    chai.add(fun([](int kk) { g_log = std::to_string(kk); }), "note");
+    chai.eval("def s(" + ps + ") { note(" + std::to_string(k) + ") }");
+    src = "s(" + args + ")";
+  } else return "bad-op";
+  g_log.clear();
+  try { chai.eval(src); return g_log.empty() ? "returned-without-entering" : "entered " + g_log; }
+  catch (...) { return g_log.empty() ? "error" : "error AFTER-ENTERING " + g_log; }
+}
+
 int main() {
   std::string line;
   while (std::getline(std::cin, line)) {
@@ -206,6 +258,8 @@ int main() {
           out = "entered " + g_log;
         } catch (...) { out = errclass(); if (!g_log.empty()) out += " AFTER-ENTERING " + g_log; }
         out = "order=" + order + " " + out;
+      } else if (w.size() == 4 && w[0] == "arity") {
+        out = arity_probe(w[1], std::stoi(w[2]), std::stoi(w[3]));
       } else if (w.size() == 4 && w[0] == "bind") {
         // bind <pattern over b/_> <number of call arguments> <mixed 0|1>
         const std::string pat = w[1];
